@@ -383,6 +383,10 @@ func c17(r *vc.Run) int {
 		absorb(r, m, res, label, sc, true)
 	})
 	for s, n := range m.Races {
+		if s == "harness-only" {
+			r.Note("race report x%d with harness frames only (machinery defect, not Zeno)", n)
+			continue
+		}
 		r.Violation("data-race/"+s, fmt.Sprintf("race detector report x%d in the stats primitives: %s", n, s), nil)
 	}
 	cov := map[string]any{
